@@ -111,6 +111,8 @@ type Stor struct {
 	closed  bool
 	ops     []Op
 	keepLog bool // keep full op log with written data (needed for crash images)
+	// NoData: keep the op log without the written bytes (enough for counting and ordering, not for images)
+	NoData bool
 	nops    int
 	counts  [NumOpKinds]map[storage.FileType]int
 	faults  []*Fault
@@ -472,14 +474,14 @@ func (w *writer) Write(p []byte) (int, error) {
 		n := len(p) * ft.PartialPermille / 1000
 		o.Fail = true
 		o.N = n
-		if s.keepLog {
+		if s.keepLog && !s.NoData {
 			o.Data = append([]byte(nil), p[:n]...)
 		}
 		s.logOp(o)
 		w.f.data = append(w.f.data, p[:n]...)
 		return n, ErrInjected
 	}
-	if s.keepLog {
+	if s.keepLog && !s.NoData {
 		o.Data = append([]byte(nil), p...)
 	}
 	s.logOp(o)
